@@ -2,6 +2,7 @@ package props
 
 import (
 	"fmt"
+	"math"
 	"sort"
 	"strings"
 	"sync"
@@ -135,6 +136,29 @@ func TestC18_Identity(t *testing.T) {
 		}
 		if h.Count() != int64(len(obs)) || h.Sum() != float64(sum) {
 			t.Fatalf("histogram reports count=%d sum=%v after %d observations summing to %d", h.Count(), h.Sum(), len(obs), sum)
+		}
+		// huge observations: once the running total passes the largest float64 (or +Inf itself is
+		// observed) the sum is +Inf and stays +Inf - never NaN, never finite again
+		hh := c.Histogram("huge", nil)
+		hugeObs := rapid.SliceOfN(rapid.SampledFrom([]float64{math.MaxFloat64, math.MaxFloat64 / 2, math.Inf(1), 1e308, 1, 0, 12345}), 0, 6).Draw(t, "huge-obs")
+		overflow, run := false, 0.0
+		for _, o := range hugeObs {
+			hh.Observe(o)
+			run += o
+			if math.IsInf(run, 1) {
+				overflow = true
+			}
+			if hh.Count() <= 0 {
+				t.Fatalf("histogram count %d after observing %v", hh.Count(), hugeObs)
+			}
+			if got := hh.Sum(); overflow && !math.IsInf(got, 1) {
+				t.Fatalf("histogram sum is %v after observing %v: the total exceeds the largest float64, the sum is +Inf", got, hugeObs)
+			} else if !overflow && got != run {
+				t.Fatalf("histogram sum is %v after observing %v, want %v", got, hugeObs, run)
+			}
+		}
+		if hh.Count() != int64(len(hugeObs)) {
+			t.Fatalf("histogram count %d after %d observations", hh.Count(), len(hugeObs))
 		}
 		ps := rapid.SliceOfN(rapid.OneOf(rapid.Float64Range(0, 100), rapid.SampledFrom([]float64{0, 1, 50, 90, 95, 99, 99.9, 100})), 2, 8).Draw(t, "ps")
 		sort.Float64s(ps)
